@@ -320,6 +320,7 @@ impl Server {
                 crate::verif::Event::VfsWriteHeld,
                 crate::verif::Event::VfsWriteReleased,
             );
+            vfs.set_open_document(path.clone(), text);
             vfs.assign_or_get_file_id(path)
         };
         let text = Arc::from(text);
